@@ -4,6 +4,7 @@
 // classifier afterwards.
 #pragma once
 #include "case.hpp"
+#include <algorithm>
 
 namespace vf {
 
@@ -14,6 +15,7 @@ struct GramOpts {
   bool plainCodes = false; // character codes only
   int ambiguityBias = 0;   // 0..100: duplicate rules / E : E E shapes
   bool deterministicNames = true;
+  int regimeW[5] = {30, 20, 20, 20, 10}; // parse properties: weights of the regimes small / big / list / sequence / chain
 };
 
 inline std::string tname(int i) { return std::string(1, (char)('a' + i)); }
@@ -236,6 +238,66 @@ inline RawGram genBlockGrammar(Choices &c, const GramOpts &o) {
   bool hasErr = false;
   for (auto &r : g.rules) for (auto &x : r.rhs) if (x == "error") hasErr = true;
   if (!hasErr) add(E, {open(0), "error", close(0)});
+  assignTranslations(c, g, o, false);
+  return g;
+}
+
+// Chain template: nonterminals X1..Xk (k = 3-6), each rule of Xj ending in X(j+1) (optionally followed by a nullable
+// symbol) or being a unit rule, plus a short alternative; the start symbol uses several Xj in contexts with different
+// following terminals.  Rules are listed top-down, bottom-up or (by the caller's shuffle) in any order: information
+// computed by fix-point loops over the rules (FIRST/FOLLOW, nullable, contexts) has to travel along the whole chain,
+// with or against the numbering of the nonterminals.
+inline RawGram genChainGrammar(Choices &c, const GramOpts &o) {
+  RawGram g;
+  int nT = c.range(3, 6);
+  for (int t = 0; t < nT; t++) g.terms.push_back({tname(t), 'a' + t});
+  auto term = [&]() { return tname(c.upto(nT - 1)); };
+  int k = c.range(3, 6);
+  const std::string S = nname(0);
+  auto X = [&](int j) { return nname(j); }; // X(1)..X(k)
+  bool nullTail = c.chance(50), useErr = c.chance(o.errorPct);
+  const std::string N = nname(k + 1), E = nname(k + 2);
+  std::vector<RawRule> srules, xrules;
+  auto mk = [&](const std::string &lhs, std::vector<std::string> rhs) { RawRule r; r.lhs = lhs; r.rhs = rhs; return r; };
+  for (int j = 1; j <= k; j++) {
+    if (j < k) {
+      int shape = c.upto(3);
+      std::vector<std::string> rhs;
+      if (shape != 0) rhs.push_back(term());       // shape 0: unit rule
+      if (shape == 3) rhs.push_back(term());
+      rhs.push_back(X(j + 1));
+      if (nullTail && c.chance(40)) rhs.push_back(N);
+      xrules.push_back(mk(X(j), rhs));
+      if (c.chance(70)) xrules.push_back(mk(X(j), {term()}));
+    } else {
+      xrules.push_back(mk(X(j), {term()}));
+      if (c.chance(25)) xrules.push_back(mk(X(j), {}));
+    }
+  }
+  if (nullTail) { xrules.push_back(mk(N, {})); if (c.flip()) xrules.push_back(mk(N, {term()})); }
+  // contexts in the start symbol
+  int ns = c.range(2, 4);
+  for (int i = 0; i < ns; i++) {
+    int j = i == 0 ? 1 : c.range(1, k);
+    std::vector<std::string> rhs;
+    if (c.chance(80)) rhs.push_back(term());
+    rhs.push_back(X(j));
+    if (c.chance(70)) rhs.push_back(term());
+    if (useErr && i == 0) rhs.push_back(E);
+    srules.push_back(mk(S, rhs));
+  }
+  if (useErr) { xrules.push_back(mk(E, {"error"})); xrules.push_back(mk(E, {term()})); if (c.flip()) xrules.push_back(mk(E, {})); }
+  // order: the first rule belongs to the start symbol; then top-down or bottom-up
+  g.rules.push_back(srules[0]);
+  bool bottomUp = c.flip();
+  if (bottomUp) std::reverse(xrules.begin(), xrules.end());
+  bool sFirst = c.flip();
+  if (sFirst) for (size_t i = 1; i < srules.size(); i++) g.rules.push_back(srules[i]);
+  for (auto &r : xrules) g.rules.push_back(r);
+  if (!sFirst) for (size_t i = 1; i < srules.size(); i++) g.rules.push_back(srules[i]);
+  bool nUsed = false;
+  for (auto &r : g.rules) for (auto &x : r.rhs) if (x == N) nUsed = true;
+  if (nullTail && !nUsed) g.rules[0].rhs.push_back(N);
   assignTranslations(c, g, o, false);
   return g;
 }
@@ -464,6 +526,40 @@ inline void elongate(Choices &c, GramDef &gd) {
     }
     gd.text = out;
   }
+}
+
+// The grammar as a description text in the documented syntax (plain layout): TERM declarations with explicit codes, rules of
+// one nonterminal that follow each other as alternatives, the cost written only when it is not the default 1.
+// false if the grammar cannot be written that way (names that are no identifiers, translations the syntax cannot express).
+inline bool simpleText(const RawGram &g, std::string &out) {
+  auto ident = [](const std::string &n) {
+    if (n.empty() || !(isalpha((unsigned char)n[0]) || n[0] == '_')) return false;
+    for (char ch : n) if (!(isalnum((unsigned char)ch) || ch == '_')) return false;
+    return n != "TERM";
+  };
+  out = "TERM";
+  for (auto &t : g.terms) { if (!ident(t.first) || t.second < 0) return false; out += "\n " + t.first + " = " + std::to_string(t.second); }
+  out += ";\n";
+  for (size_t i = 0; i < g.rules.size(); i++) {
+    const RawRule &r = g.rules[i];
+    if (!ident(r.lhs)) return false;
+    bool cont = i > 0 && g.rules[i - 1].lhs == r.lhs;
+    out += cont ? " |" : r.lhs + " :";
+    for (auto &x : r.rhs) { if (!ident(x)) return false; out += " " + x; }
+    if (r.has_anode) {
+      if (!ident(r.anode) || r.cost < 0) return false;
+      out += " # " + r.anode;
+      if (r.cost != 1) out += " " + std::to_string(r.cost);
+      out += " (";
+      for (int t : r.transl) out += t == NILNUM ? std::string(" -") : " " + std::to_string(t);
+      out += " )";
+    } else if (r.transl_null || r.transl.empty()) { if (!r.transl_null) out += " #"; }
+    else if (r.transl.size() == 1) out += r.transl[0] == NILNUM ? std::string(" # -") : " # " + std::to_string(r.transl[0]);
+    else return false;
+    bool last = i + 1 == g.rules.size() || g.rules[i + 1].lhs != r.lhs;
+    out += last ? " ;\n" : "\n";
+  }
+  return true;
 }
 
 // grammar feature labels (measured distribution of the generator)
